@@ -172,7 +172,7 @@ def tilt_groups():
     return [Group(
         name="sweeps.tilt", units=[tilt], harness=tilt_harness(), entry="h_tilt", enforce="tilt",
         replace=["sw_nextafter_up"], loop_contracts=True, defines=["REC_W=1", "REC_BYTES=8"],
-        backend="sat", timeout=600, min_obligations=40,
+        backend="sat", timeout=600, min_obligations=40, object_bits=8,
         clause="spanning-tree resolver tilt loop, any number of nodes, any order satisfying the order contract: afterwards every node is its own "
                "receiver or strictly above its receiver (or the receiver is at +inf); no elevation decreases; own-receiver nodes are bit-identical; "
                "a changed value is nextafter(+inf) of the receiver's final elevation and the node was not above its receiver before")]
@@ -289,7 +289,7 @@ void h_compute_donors(void)
         name="sweeps.donors.w%d" % don_w, units=[make_donors(don_w)], harness=h, entry="h_compute_donors",
         enforce="compute_donors", replace=["sw_fill_sz"], loop_contracts=True,
         defines=["REC_W=1", "REC_BYTES=8", "DON_W=%d" % don_w, "DON_BYTES=%d" % (8 * don_w)],
-        backend="sat", timeout=(600 if tier == "quick" else 1800), min_obligations=40, tier=tier,
+        backend="sat", timeout=(600 if tier == "quick" else 1800), min_obligations=40, tier=tier, object_bits=8,
         clause="compute_donors, any number of nodes, arbitrary previous table contents: every stored donor d of row r is a node != r with "
                "receiver r (sound), a row holds no node twice (slots strictly increasing), every node != r with receiver r is in row r "
                "(complete); row width %d" % don_w)]
@@ -456,7 +456,7 @@ void h_compute_basins(void)
                   "unmasked outlet labelled with its slot; the authors' assert"}
     return [Group(
         name="sweeps.basins.%s" % part, units=[is_masked, make_basins(part)], harness=h, entry="h_compute_basins", enforce="compute_basins",
-        loop_contracts=True, defines=["REC_W=1", "REC_BYTES=8"], backend="sat", timeout=600, min_obligations=60,
+        loop_contracts=True, defines=["REC_W=1", "REC_BYTES=8"], backend="sat", timeout=600, min_obligations=60, object_bits=8,
         clause="compute_basins, any number of nodes, any mask, any bottom-up order satisfying the order contract, arbitrary previous contents: " +
                clause[part]) for part in ("propagation", "labels")]
 
@@ -546,7 +546,7 @@ void h_pits(void)
 """ % (PITS_ARGS, CANARY)
     return [Group(
         name="sweeps.pits", units=[is_base_level, pits], harness=h, entry="h_pits", enforce="pits",
-        loop_contracts=True, backend="sat", timeout=600, min_obligations=40,
+        loop_contracts=True, backend="sat", timeout=600, min_obligations=40, object_bits=8,
         clause="pits(), any outlet list, any base-level set, arbitrary previous contents: the j-th outlet entry that is not a base level is pit "
                "number j (filter, order preserved), pits.size() = number of such entries, every pit is a non-base-level member of the outlet list")]
 
@@ -823,6 +823,12 @@ void h_accumulate_step(void)
 """ % (acc_ghost_init(rec_w), ACC_ARGS, CANARY)
 
 
+def acc_object_bits(rec_w):
+    """cbmc --object-bits: 8 (cbmc's own default) is enough up to width 2; wider tables address more objects.  Stated explicitly because
+    the pointer encoding width changes solver time by an order of magnitude (loop.eq.w2: 51 s with 8, > 600 s with 12)."""
+    return 8 if rec_w <= 2 else (9 if rec_w <= 4 else 10)
+
+
 def acc_defines(rec_w):
     return ["REC_W=%d" % rec_w, "REC_BYTES=%d" % (8 * rec_w)]
 
@@ -835,7 +841,7 @@ def acc_step_groups(rec_w, tier="quick"):
             harness=acc_step_harness(rec_w), entry="h_accumulate_step", enforce="accumulate_step",
             replace=["sw_mul_local", "sw_mul_w"] + (["sw_add"] if mode == "eq" else []),
             unwindset={("accumulate_step", 0): rec_w + 1}, defines=acc_defines(rec_w),
-            backend="sat", timeout=(600 if tier == "quick" else 1800), min_obligations=30, tier=tier, object_bits=(10 if rec_w >= 4 else None),
+            backend="sat", timeout=(600 if tier == "quick" else 1800), min_obligations=30, tier=tier, object_bits=acc_object_bits(rec_w),
             clause={"eq": "one turn of the accumulation sweep (node v), + and * abstracted as deterministic functions of their operands: "
                           "finality (a node whose turn is over is not written), own contribution area*src added once, each receiver slot r of v "
                           "pointing to a node != v adds acc(v)*weight(v,r) to it in slot order, no other node changes",
@@ -950,7 +956,7 @@ def acc_outer_groups(rec_w, tier="quick"):
             name="sweeps.accumulate.loop.%s.w%d" % (mode, rec_w), units=[make_acc_step(rec_w, mode), make_acc_outer(rec_w, mode)],
             harness=acc_outer_harness(rec_w), entry="h_accumulate", enforce="accumulate",
             replace=["accumulate_step", "sw_fill_d"], loop_contracts=True, defines=acc_defines(rec_w),
-            backend="sat", timeout=(600 if tier == "quick" else 1800), min_obligations=30, tier=tier, object_bits=(10 if rec_w >= 4 else None),
+            backend="sat", timeout=(600 if tier == "quick" else 1800), min_obligations=30, tier=tier, object_bits=acc_object_bits(rec_w),
             clause={"eq": "whole accumulation sweep (any number of nodes, any order satisfying the order contract, arbitrary previous contents of acc): "
                           "acc starts from 0; for an arbitrary node G and an arbitrary turn (node v): v == G adds area*src once, v != G adds "
                           "acc_final(v)*weight(v,r) for each slot r pointing to G in slot order and nothing otherwise; the returned acc[G] is the "
@@ -984,7 +990,7 @@ void h_fp_facts(void)
 """ % CANARY
     return [Group(
         name="sweeps.accumulate.fp_facts", units=[], harness=h, entry="h_fp_facts", enforce="sw_ieee_mul",
-        backend="sat", timeout=300, min_obligations=3,
+        backend="sat", timeout=300, min_obligations=3, object_bits=8,
         clause="IEEE-754 binary64 multiplication satisfies the sign clauses assumed of the abstracted products (one product per obligation, bit-precise)")]
 
 
